@@ -83,7 +83,12 @@ Proof.
       split.
       * exists (padd (pmul K1 Q) (pmul [lc1 D R1] K2)).
         assert (HF : eqv F (padd (pmul G Q) R1)) by (constructor; exact Hd).
-        rewrite HF, (lc1_scale R1), H2, HG. ring.
+        pose proof (lc1_scale R1) as HS.
+        transitivity (padd (pmul G Q) R1). exact HF.
+        transitivity (padd (pmul (pmul K1 F') Q) (pmul [lc1 D R1] (pmul K2 F'))).
+        { apply g_add. apply g_mul. exact HG. reflexivity.
+          etransitivity. exact HS. apply g_mul. reflexivity. exact H2. }
+        ring.
       * exists K1. exact HG.
 Qed.
 
@@ -121,14 +126,14 @@ Proof.
   - (* base (A, B) *)
     pose proof (egcd_loop_common_multiple kthr sthr A B Hk (S (length (assign D B)))
                   (div_s D (assign D A) (leadcoef D (assign D A))) (div_s D (assign D B) (leadcoef D (assign D B)))
-                  (const D (dinv D (leadcoef D (assign D A)))) [] [] (const D (dinv D (leadcoef D (assign D B))))) as H.
+                  (const D (dinv D (leadcoef D (assign D A)))) [] [] (const D (dinv D (leadcoef D (assign D B))))) as HCM.
     destruct (egcd_loop D kthr sthr (S (length (assign D B)))
                 (div_s D (assign D A) (leadcoef D (assign D A))) (div_s D (assign D B) (leadcoef D (assign D B)))
                 (const D (dinv D (leadcoef D (assign D A)))) [] [] (const D (dinv D (leadcoef D (assign D B)))))
       as [[[[[F' G'] S0'] S1'] T0'] T1'].
     intros HZ.
     assert (HM : eqv (pmul S1' A) (pneg (pmul T1' B))).
-    { apply H; [|exact HZ]. unfold bez, assign. split.
+    { apply HCM; [|exact HZ]. generalize (leadcoef D (assign D A)) (leadcoef D (assign D B)). intros ra rb. unfold bez, assign. split.
       - rewrite (div_s_eqv D OK), (const_eqv D OK), (setdegree_eqv D OK). ring.
       - rewrite (div_s_eqv D OK), (const_eqv D OK), (setdegree_eqv D OK). ring. }
     destruct (degree D G' <=? 0)%Z.
@@ -141,14 +146,14 @@ Proof.
   - (* base (B, A) *)
     pose proof (egcd_loop_common_multiple kthr sthr B A Hk (S (length (assign D A)))
                   (div_s D (assign D B) (leadcoef D (assign D B))) (div_s D (assign D A) (leadcoef D (assign D A)))
-                  (const D (dinv D (leadcoef D (assign D B)))) [] [] (const D (dinv D (leadcoef D (assign D A))))) as H.
+                  (const D (dinv D (leadcoef D (assign D B)))) [] [] (const D (dinv D (leadcoef D (assign D A))))) as HCM.
     destruct (egcd_loop D kthr sthr (S (length (assign D A)))
                 (div_s D (assign D B) (leadcoef D (assign D B))) (div_s D (assign D A) (leadcoef D (assign D A)))
                 (const D (dinv D (leadcoef D (assign D B)))) [] [] (const D (dinv D (leadcoef D (assign D A)))))
       as [[[[[F' G'] S0'] S1'] T0'] T1'].
     intros HZ.
     assert (HM : eqv (pmul S1' B) (pneg (pmul T1' A))).
-    { apply H; [|exact HZ]. unfold bez, assign. split.
+    { apply HCM; [|exact HZ]. generalize (leadcoef D (assign D A)) (leadcoef D (assign D B)). intros ra rb. unfold bez, assign. split.
       - rewrite (div_s_eqv D OK), (const_eqv D OK), (setdegree_eqv D OK). ring.
       - rewrite (div_s_eqv D OK), (const_eqv D OK), (setdegree_eqv D OK). ring. }
     destruct (degree D G' <=? 0)%Z.
